@@ -273,12 +273,172 @@ def check_clique_vector(ctx):
     check_combine(ctx, methods['combine'])
 
 
+# ---- two-phase spellings of combine -----------------------------------------------------------------------------------------------------
+def _subst(node, mapping):
+    from ..srcmodel import clone
+
+    class S(ast.NodeTransformer):
+        def visit_Name(self, n):
+            return clone(mapping[n.id]) if n.id in mapping else n
+    return S().visit(clone(node))
+
+
+def _names(n):
+    return {x.id for x in ast.walk(n) if isinstance(x, ast.Name)}
+
+
+def inline_pair_lists(body):
+    """`N = [(x, f(x)) for x in IT]` ... `for a, b in N:`  ==>  `for a in IT: b = f(a)` -- when IT's keys cannot change in between
+    (only `IT[k] op= v` may touch it) and N has no other use."""
+    from ..srcmodel import clone
+    for st in list(body):
+        if not (isinstance(st, ast.Assign) and len(st.targets) == 1 and isinstance(st.targets[0], ast.Name)):
+            continue
+        N = st.targets[0].id
+        comp = st.value
+        if isinstance(comp, ast.Call) and isinstance(comp.func, ast.Name) and comp.func.id in ('list', 'tuple') and len(comp.args) == 1:
+            comp = comp.args[0]
+        if not (isinstance(comp, (ast.ListComp, ast.GeneratorExp)) and len(comp.generators) == 1 and not comp.generators[0].ifs
+                and isinstance(comp.elt, ast.Tuple) and isinstance(comp.generators[0].target, ast.Name)):
+            continue
+        g = comp.generators[0]
+        x = g.target.id
+        root = U(g.iter).split('.')[0].split('[')[0]
+        rest = body[body.index(st) + 1:]
+        uses = [n for r in rest for n in ast.walk(r) if isinstance(n, ast.Name) and n.id == N]
+        loops = [n for r in rest for n in ast.walk(r) if isinstance(n, ast.For) and isinstance(n.iter, ast.Name) and n.iter.id == N]
+        if not loops or len(uses) != len(loops):
+            continue
+        if any(not (isinstance(l.target, ast.Tuple) and len(l.target.elts) == len(comp.elt.elts)
+                    and all(isinstance(e, ast.Name) for e in l.target.elts)) for l in loops):
+            continue
+        # key set of the iterated collection must be stable: no plain store / deletion / mutating call on it
+        stable = True
+        for r in rest:
+            for n in ast.walk(r):
+                if isinstance(n, (ast.Assign, ast.Delete)):
+                    for t in n.targets:
+                        if U(t).split('.')[0].split('[')[0] == root:
+                            stable = False
+                if isinstance(n, ast.Call) and isinstance(n.func, ast.Attribute) and U(n.func.value) == root and \
+                        n.func.attr in ('pop', 'update', 'clear', 'setdefault', 'popitem', 'append', 'remove', 'add'):
+                    stable = False
+        if not stable:
+            continue
+        # the first component must be the generator variable itself (the loop then ranges over IT directly)
+        if not (isinstance(comp.elt.elts[0], ast.Name) and comp.elt.elts[0].id == x):
+            continue
+        for l in loops:
+            a = l.target.elts[0]
+            pre = []
+            for t, e in list(zip(l.target.elts, comp.elt.elts))[1:]:
+                new = ast.Assign(targets=[ast.Name(id=t.id, ctx=ast.Store())], value=_subst(e, {x: a}), lineno=l.lineno, col_offset=l.col_offset)
+                ast.fix_missing_locations(new)
+                pre.append(new)
+            l.target = ast.Name(id=a.id, ctx=ast.Store())
+            l.iter = clone(g.iter)
+            l.body = pre + l.body
+        body.remove(st)
+    return body
+
+
+def fuse_two_phase(ctx, fi, body, other):
+    """phase 1 `H[KE] = VE` inside the search, phase 2 `for a, b in H.items(): self[..] += ..`  ==>  the phase-2 statement at the store.
+    Sound when KE is the phase-1 loop variable (one entry per source, insertion order = iteration order) and phase 2 only accumulates
+    into existing entries of self.  A table keyed by anything that two sources can share loses all but the last of them."""
+    for st in list(body):
+        if not (isinstance(st, ast.Assign) and len(st.targets) == 1 and isinstance(st.targets[0], ast.Name)
+                and U(st.value).replace(' ', '') in ('{}', 'dict()')):
+            continue
+        H = st.targets[0].id
+        i = body.index(st)
+        tops = [r for r in body[i + 1:] if H in _names(r)]
+        if len(tops) != 2 or not all(isinstance(t, ast.For) for t in tops):
+            continue
+        p1, p2 = tops
+        stores = [n for n in ast.walk(p1) if isinstance(n, ast.Assign) and len(n.targets) == 1 and isinstance(n.targets[0], ast.Subscript)
+                  and U(n.targets[0].value) == H]
+        if len(stores) != 1 or sum(1 for n in ast.walk(p1) if isinstance(n, ast.Name) and n.id == H) != 1:
+            raise AnalysisError('CliqueVector.combine: unrecognised use of the table `%s` in the search phase' % H)
+        store = stores[0]
+        KE, VE = store.targets[0].slice, store.value
+        if isinstance(p1.target, ast.Name):
+            K = p1.target.id
+        elif isinstance(p1.target, ast.Tuple) and isinstance(p1.target.elts[0], ast.Name) and U(p1.iter).endswith('.items()'):
+            K = p1.target.elts[0].id
+        else:
+            raise AnalysisError('CliqueVector.combine: unrecognised search phase `for %s in %s`' % (U(p1.target), U(p1.iter)))
+        if U(p1.iter).split('.')[0] != other:
+            raise AnalysisError('CliqueVector.combine: search phase does not range over the sources')
+        if not (isinstance(KE, ast.Name) and KE.id == K):
+            if K not in _names(KE):
+                ctx.ob('cv-combine', fi, store, False,
+                       'the table `%s` filled by the search is keyed by `%s`, which two source cliques can share: all but the last source '
+                       'found for one key are dropped before the accumulation phase (each source with a containing clique must be added once)'
+                       % (H, U(KE)), construct='first-match-only of combine')
+                return None
+            raise AnalysisError('CliqueVector.combine: unrecognised key `%s` of the table `%s`' % (U(KE), H))
+        # phase 2: for a, b in H.items(): <accumulations into self>
+        if U(p2.iter) == H + '.items()' and isinstance(p2.target, ast.Tuple) and len(p2.target.elts) == 2 \
+                and all(isinstance(e, ast.Name) for e in p2.target.elts):
+            mapping = {p2.target.elts[0].id: KE, p2.target.elts[1].id: VE}
+            sub_h = None
+        elif U(p2.iter) in (H, H + '.keys()') and isinstance(p2.target, ast.Name):
+            mapping = {p2.target.id: KE}
+            sub_h = '%s[%s]' % (H, p2.target.id)
+        else:
+            raise AnalysisError('CliqueVector.combine: unrecognised accumulation phase `for %s in %s`' % (U(p2.target), U(p2.iter)))
+        if p2.orelse or not all(isinstance(b, ast.AugAssign) and isinstance(b.target, ast.Subscript) and U(b.target.value) == 'self'
+                                for b in p2.body):
+            raise AnalysisError('CliqueVector.combine: unrecognised accumulation phase body')
+        if any(isinstance(n, ast.Subscript) and U(n.value) == 'self' for n in ast.walk(p1)):
+            raise AnalysisError('CliqueVector.combine: the search phase reads entries of self; cannot reorder the accumulation')
+        new = []
+        for b in p2.body:
+            if sub_h is not None:
+                class R(ast.NodeTransformer):
+                    def visit_Subscript(self, n):
+                        self.generic_visit(n)
+                        return ast.Name(id='__hv', ctx=ast.Load()) if U(n) == sub_h else n
+                from ..srcmodel import clone
+                b = R().visit(clone(b))
+                nb = _subst(b, dict(mapping, __hv=VE))
+            else:
+                nb = _subst(b, mapping)
+            if H in _names(nb):
+                raise AnalysisError('CliqueVector.combine: accumulation phase uses the table beyond its entries')
+            ast.copy_location(nb, store)
+            ast.fix_missing_locations(nb)
+            new.append(nb)
+        # splice at the store
+        for n in ast.walk(p1):
+            for f in ('body', 'orelse'):
+                blk = getattr(n, f, None)
+                if isinstance(blk, list) and store in blk:
+                    j = blk.index(store)
+                    blk[j:j + 1] = new
+        body.remove(st)
+        body.remove(p2)
+    return body
+
+
 def check_combine(ctx, fi):
     """for K in other: the FIRST K2 of self with set(K) <= set(K2) (if any) receives other[K], exactly once.
     Recognised searches: inner loop with test + break, and `next((K2 for K2 in self if TEST), None)` with a None-test."""
     from ..normalise import Defs, expand
+    from ..srcmodel import clone
     other = fi.params[1]
-    outer = [s for s in fi.body if isinstance(s, ast.For)]
+    body = fi.body
+    if len([s for s in body if isinstance(s, ast.For)]) != 1 or any(isinstance(s, ast.Assign) for s in body):
+        body = inline_pair_lists([clone(s) for s in fi.body])
+        body = fuse_two_phase(ctx, fi, body, other)
+        if body is None:
+            return
+        for b in body:
+            for n in ast.walk(b):
+                for ch in ast.iter_child_nodes(n):
+                    ch._parent = n
+    outer = [s for s in body if isinstance(s, ast.For)]
     if len(outer) != 1:
         raise AnalysisError('CliqueVector.combine: unrecognised outer loop')
     o = outer[0]
@@ -325,7 +485,11 @@ def check_combine(ctx, fi):
             raise AnalysisError('CliqueVector.combine: unrecognised inner loop')
         K2 = lp.target.id
         ifs = [s for s in lp.body if isinstance(s, ast.If)]
-        if len(ifs) != 1 or len(lp.body) != 1:
+        lead = [s for s in lp.body if not isinstance(s, ast.If)]
+        pure = all(isinstance(s, ast.Assign) and len(s.targets) == 1 and isinstance(s.targets[0], ast.Name)
+                   and not any(isinstance(n, ast.Call) and not (isinstance(n.func, ast.Name) and n.func.id in ('set', 'frozenset', 'tuple', 'len'))
+                               for n in ast.walk(s.value)) for s in lead)
+        if len(ifs) != 1 or lp.body[-1] is not ifs[0] or not pure:
             raise AnalysisError('CliqueVector.combine: unrecognised search body')
         test = expand(ifs[0].test, defs, keep=keep + (K2,))
         where_test = ifs[0]
